@@ -1,7 +1,7 @@
 #!/bin/bash
 # Runs every patch under /verif/mutants (expected: DETECTED by the check of the property named in
 # the file name) and /verif/refactors (expected: missed by every check), a few at a time.
-#   selftest/mutants_all.sh [mutants|refactors|seeded] [jobs]
+#   selftest/mutants_all.sh [mutants|refactors|seeded|refactors_seeded] [jobs]
 ROOT="$(cd "$(dirname "${BASH_SOURCE[0]}")/.." && pwd)"
 KIND="${1:-mutants}"; JOBS="${2:-4}"
 ALL="C02 C03 C04 C05 C06 C10 C16 C17 C19 C20"
@@ -11,14 +11,14 @@ run_one() {
     mutants) props="${b%%-*}" ;;
     *) props="$ALL" ;;
   esac
-  if [ "$KIND" = seeded ]; then
+  if [ "$KIND" = seeded ] || [ "$KIND" = refactors_seeded ]; then
     "$ROOT/selftest/mutant.sh" "$f" $props | sed "s#^patch.diff#$(basename "$(dirname "$f")")#"
   else
     "$ROOT/selftest/mutant.sh" --crate-tests "$f" $props
   fi
 }
 export -f run_one; export ROOT KIND ALL
-if [ "$KIND" = seeded ]; then files=$(ls "$ROOT"/seeded/*/patch.diff); else files=$(ls "$ROOT/$KIND"/*.patch); fi
+if [ "$KIND" = seeded ] || [ "$KIND" = refactors_seeded ]; then files=$(ls "$ROOT/$KIND"/*/patch.diff); else files=$(ls "$ROOT/$KIND"/*.patch); fi
 RES="${RESULTS_DIR:-$ROOT/selftest/results}"; mkdir -p "$RES"
 echo "$files" | xargs -P "$JOBS" -I{} bash -c 'run_one {}' | tee "$RES/$KIND.txt.part"
 sort "$RES/$KIND.txt.part" > "$RES/$KIND.txt"; rm -f "$RES/$KIND.txt.part"
